@@ -2,12 +2,12 @@ SPECIFICATION MCFairSpec
 CONSTANTS
   NAuthor = 2
   NLog = 1
-  MaxSeq = 2
+  MaxSeq = 1
   Caps = {99}
   StoreChoices <- AllPrefixes
   LogsChoices <- LogsAll
-  MaxMut = 0
-  MutKinds = {}
+  MaxMut = 1
+  MutKinds = {"prune", "delete"}
   Faults = TRUE
   Defect_SendBlocksRecv = TRUE
   Fix_DoneOnce = TRUE
